@@ -375,6 +375,27 @@ def run(repo, chk):
     chk.ob("R18.1", "opparse.OperatorPrecedenceTower.resolve:unknown-token-is-a-syntax-error", "raise op.location.syntax_error(" in norm(rs.node), rs.where,
            "a token without priority (stray character, unknown type) is reported as a located syntax error")
 
+    # the lexer never drops input silently and keeps positions
+    lx0 = repo.func("opparse.Lexer.__call__")
+    wl0 = [n for n in walk_local(lx0.node) if isinstance(n, ast.While)]
+    fallback = False
+    pos_ok = False
+    if wl0:
+        fors = [n for n in ast.walk(wl0[0]) if isinstance(n, ast.For) and n.orelse]
+        for f_ in fors:
+            for c in ast.walk(ast.Module(body=f_.orelse, type_ignores=[])):
+                if isinstance(c, ast.Call) and norm(c.func) == "tokens.append" and c.args and isinstance(c.args[0], ast.Call) and norm(c.args[0].func) == "Token":
+                    ty = kwarg(c.args[0], "type")
+                    fallback = fallback or (isinstance(ty, ast.Constant) and ty.value is None)
+        incs = sorted(norm(n) for n in ast.walk(wl0[0]) if isinstance(n, ast.AugAssign) and norm(n.target) == "current")
+        starts = [norm(kwarg(c, "start")) for c in ast.walk(wl0[0]) if isinstance(c, ast.Call) and norm(c.func) == "Token" and kwarg(c, "start") is not None]
+        pos_ok = incs == ["current += 1", "current += m.end()"] and starts == ["current", "current"]
+    chk.ob("R18.1", "opparse.Lexer.__call__:unmatched-character-becomes-a-token", fallback, lx0.where,
+           "a character that no pattern matches becomes a token of type None (which the precedence tower refuses with a located syntax error) instead of being skipped silently")
+    chk.ob("R18.1", "opparse.Lexer.__call__:positions-tracked", pos_ok, lx0.where, "every token records the offset at which it starts (syntax errors point at the offending position)")
+    an0 = repo.func("opparse.ASTNode.__init__")
+    chk.ob("R18.1", "opparse.ASTNode.__init__:has-location", any(isinstance(n, ast.Assign) and norm(n.targets[0]) == "self.location" for n in walk_local(an0.node)), an0.where,
+           "every parse node carries a location: the operand checks of the evaluation actions raise `node.location.syntax_error(...)`")
     # ---------------- R18.2
     attrs = {"Element": class_attrs(repo, "selector.Element"), "Call": class_attrs(repo, "selector.Call"), "list": set(dir(list)),
              "VSymbol": class_attrs(repo, "selector.VSymbol"), "VCall": class_attrs(repo, "selector.VCall"), "VKeyword": class_attrs(repo, "selector.VKeyword")}
